@@ -256,6 +256,11 @@ def discharge(ctx, s, scope=None):
             for a in ats:
                 if a[0] == 'cmp' and a[1] == 'Le' and a[2] == amt and a[3].isdigit() and int(a[3]) <= 63:
                     return 'shift amount %s is at most %s on every path to the shift (dominating condition)' % (amt, a[3])
+    if kind in ('assert:divzero', 'assert:remzero') and len(ops) == 2:
+        # the assert condition compares the divisor with 0: a non-zero constant divisor cannot trip it
+        d0, z0 = _const_int(_strip(ops[0])), _const_int(_strip(ops[1]))
+        if d0 is not None and z0 == 0 and d0 != 0:
+            return 'division by the non-zero constant %d' % d0
     if kind in ('assert:overflow:Shr', 'assert:overflow:Shl') and len(ops) == 2:
         # operands of the assert condition: Lt(amount, width)
         amt, width = ops[0], _const_int(ops[1])
